@@ -36,7 +36,7 @@ package bundler
 // the build's options only through runtimeCacheKey; otherwise whichever build parses first decides what a
 // later build with different options gets (an arrival-order dependence). Every use of `options` in
 // parseRuntime must be a field read stored straight into the key.
-//@ keyed runtime-cache-key C08: func=(*runtimeCache).parseRuntime ; in=bundler ; param=options ; key=runtimeCacheKey
+//@ keyed runtime-cache-key C08 C14: func=(*runtimeCache).parseRuntime ; in=bundler ; param=options ; key=runtimeCacheKey
 
 // ----------------------------------------------------------------------------------------------
 // C02: "the value obtained by importing a non-JavaScript file is exactly the file's bytes, text or JSON
